@@ -78,3 +78,13 @@ Definition update_path_attrs (g : xglobal) (q : xpeer) (src : xsrc) (a : xattrs)
       let cl := match x_cl a with Some l => Some (xp_cluster q :: l) | None => Some [xp_cluster q] end in
       mkX (x_origin a) p nh (x_med a) lp orig cl unk
     else mkX (x_origin a) p nh (x_med a) lp orig0 cl0 unk.
+
+(* ---- replace-peer-as (Path.ReplaceAS, called by prePolicyFilterpath before the rest of the export): every occurrence
+   of the peer's AS in the AS_PATH, in whatever segment, becomes the local AS; the segment types and lengths stay *)
+Definition replace_as (local peer : Z) (p : option (list seg)) : option (list seg) :=
+  option_map (map (fun s : seg => (fst s, map (fun a => if a =? peer then local else a) (snd s)))) p.
+Definition with_replace_peer_as (q : xpeer) (rep : bool) (a : xattrs) : xattrs :=
+  if rep then mkX (x_origin a) (replace_as (xp_localas q) (xp_as q) (x_path a)) (x_nh a) (x_med a) (x_lp a) (x_orig a) (x_cl a) (x_unk a) else a.
+Definition export_attrs (g : xglobal) (q : xpeer) (src : xsrc) (rep : bool) (a : xattrs) : xattrs :=
+  update_path_attrs g q src (with_replace_peer_as q rep a).
+
